@@ -268,6 +268,20 @@ def run(ctx):
             case['decor'] = [['orders'], ['positions-z'], ['orders', 'positions'], ['positions'], ['orders', 'positions-z']][(i // 5) % 5]
             ctx.feature('decorated:' + '+'.join(case['decor']))
         layout_case(ctx, 'nxgraph', g, b, case)
+        if i % 7 == 3 and 'decor' not in case and g.number_of_edges() >= 2:
+            # the same graph OBJECT laid out again after a bond was moved in place (same atoms, same number of bonds): the
+            # second layout is a layout of the molecule as it is now
+            leaves = [n for n in g if g.degree(n) == 1]
+            if leaves:
+                leaf = rng.choice(leaves)
+                old_nb = next(iter(g[leaf]))
+                others = [n for n in g if n not in (leaf, old_nb)]
+                if others:
+                    g.remove_edge(leaf, old_nb)
+                    g.add_edge(leaf, rng.choice(others))
+                    case3 = dict(case, nodes=list(g.nodes), edges=[list(e) for e in g.edges], edited_in_place=True)
+                    ctx.feature('laid-out-again-after-edit')
+                    layout_case(ctx, 'nxgraph-edited', g, b, case3)
         # relabeling: the guarantees hold for every labelling
         perm = list(g.nodes)
         rng.shuffle(perm)
@@ -314,6 +328,17 @@ def run(ctx):
         ctx.feature('refined:' + ('no-axis' if align is None else 'unit-axis' if abs(np.linalg.norm(align) - 1) < 1e-12 else 'non-unit-axis'))
         refined_case(ctx, aa, b, align, case)
     drawn_suite(ctx, rng)
+    if ctx.tier == 'thorough':
+        long_chain(ctx)
+
+
+def long_chain(ctx):
+    """an extended molecule of several hundred beads: the engine's unit-box positions have bonds of a few thousandths, the
+    rescaling still brings the mean to the requested length (thorough tier: the layout of 340 nodes takes half a minute)"""
+    g = nx.path_graph(340)
+    case = {'kind': 'layout', 'nodes': list(g.nodes), 'edges': [list(e) for e in g.edges], 'bond': 1.5, 'seed': 0}
+    ctx.feature('chain-of-340')
+    layout_case(ctx, 'long-chain', g, 1.5, case)
 
 
 def drawn_suite(ctx, rng):
